@@ -54,6 +54,22 @@ func outDir(kind string) string {
 	return filepath.Join(root, kind)
 }
 
+// quickScale reads the calibration factor of a property's quick tier from quick_scale.json (1 if absent).
+func quickScale(prop string) float64 {
+	b, err := os.ReadFile(filepath.Join(root, "quick_scale.json"))
+	if err != nil {
+		return 1
+	}
+	m := map[string]float64{}
+	if json.Unmarshal(b, &m) != nil {
+		return 1
+	}
+	if f, ok := m[prop]; ok && f > 0 {
+		return f
+	}
+	return 1
+}
+
 func envOr(k, d string) string {
 	if v := os.Getenv(k); v != "" {
 		return v
@@ -739,6 +755,10 @@ func check(prop, tier, replayFile, onlyScen string, runsOverride int) int {
 		n := sc.Quick
 		if tier == "thorough" {
 			n = sc.Thorough
+		} else if f := quickScale(prop); f > 0 {
+			// quick_scale.json: per-property multiplier of the scenarios' Quick counts, calibrated so
+			// that a quick tier takes about 30-45 s on 16 idle cores
+			n = int(float64(n) * f)
 		}
 		if runsOverride > 0 {
 			n = runsOverride
